@@ -2,6 +2,8 @@ package sim
 
 import (
 	"fmt"
+	"github.com/luno/workflow"
+	"sort"
 	"strings"
 	"sync"
 
@@ -81,6 +83,22 @@ func RunHistory(d *leandrv.Driver, r *rng.R, idx int, res *report.Result, o RunO
 			res.Count("drain-bound-hit")
 		}
 	}
+	deadFound := false
+	if runErr != nil && strings.Contains(runErr.Error(), "did not come to rest") {
+		// a process goroutine that has exited for good can never park again: supervision broke (C11), not the harness
+		var dead []string
+		for name, st := range s.WF.States() {
+			if st == workflow.StateShutdown {
+				dead = append(dead, name)
+			}
+		}
+		if len(dead) > 0 {
+			sort.Strings(dead)
+			s.W.Mon.Viol = append(s.W.Mon.Viol, report.Violation{Property: "C11", Oracle: "never-terminates-while-running", Signature: "process-terminated-while-running",
+				Detail: fmt.Sprintf("process(es) %v are Shutdown although the workflow was not stopped (after action %d)", dead, len(h.Actions))})
+			deadFound = true
+		}
+	}
 	if runErr == nil && o.Stop {
 		if err := s.Stop(); err != nil {
 			runErr = err
@@ -107,7 +125,7 @@ func RunHistory(d *leandrv.Driver, r *rng.R, idx int, res *report.Result, o RunO
 		}
 		res.Sample(hh)
 	}
-	if runErr != nil {
+	if runErr != nil && !deadFound {
 		return fmt.Errorf("history %d (%s): %v; actions so far: %v", idx, h.Cfg, runErr, h.Actions)
 	}
 	return nil
